@@ -43,7 +43,9 @@ MANIFEST = {
             'judged against the model: which job may be handed to the job '
             'controller, which files may be opened, what the page context must '
             'contain (html.escape of the manifest strings), which jobs a stop '
-            'reaches. Sampled manifests and sequences.',
+            'reaches. Sampled manifests and sequences.'
+            ' One session in sixty requests 18-40 listed scripts in a row'
+            ' and every one must have run.',
     'note': 'Flask routing/escaping and Jinja rendering are not present: '
             '"renders" is judged at the handler boundary (the handler returns '
             'and every variable the template mentions is in the context). An '
